@@ -986,8 +986,12 @@ class BaseImage(metaclass=ImageMeta):
             raise ValueError(f"Unknown render method {method!r} for {cls.__name__}")
 
         if not method:
-            if cls._render_methods:
+            if "_default_render_method" in vars(cls):
+                # A style class that defines render methods; reset to its default
                 cls._render_method = cls._default_render_method
+            elif "_render_method" in vars(cls):
+                # A subclass; unset, so that it uses that of its parent style class
+                del cls._render_method
         else:
             cls._render_method = method
 
